@@ -1,0 +1,183 @@
+//go:build verif
+
+package engine
+
+//@ ---------------------------------------------------------------- exceptions: error(Formal, Context) terms (C04, C05)
+//@ -- ISO 13211-1 7.12.2: every error a predicate raises is error(Formal, Context); the Formal terms are
+//@ --   instantiation_error, type_error(ValidType, Culprit), domain_error(ValidDomain, Culprit), existence_error(ObjectType, Culprit),
+//@ --   permission_error(Operation, PermissionType, Culprit), representation_error(Flag), evaluation_error(E), resource_error(Resource),
+//@ --   syntax_error(Message)  - functor, arity and argument ORDER are what the clauses below pin.
+//@ -- The constructors build the term with Atom.Apply (a *compound holding exactly the arguments given, in order) and hand it to
+//@ -- NewException, which stores a renamed copy: the shape is therefore pinned on the term handed to NewException.
+
+//@ -- errorTermC04(t): t is the compound error(_, Context) with the context variable in second place
+//@ spec fun errorTermC04(t Term) bool = t is *compound && (t as *compound).functor == atomError && len((t as *compound).args) == 2 && (t as *compound).args[1] == varContext
+//@ -- formalC04(t): the Formal of error(Formal, _)
+//@ spec fun formalC04(t Term) Term = (t as *compound).args[0]
+//@ -- formal1C04/2/3: the compound f(x) / f(x, y) / f(x, y, z) - exactly these arguments in this order
+//@ spec fun formal1C04(t Term, f Atom, x Term) bool = t is *compound && (t as *compound).functor == f && len((t as *compound).args) == 1 && (t as *compound).args[0] == x
+//@ spec fun formal2C04(t Term, f Atom, x Term, y Term) bool = t is *compound && (t as *compound).functor == f && len((t as *compound).args) == 2 && (t as *compound).args[0] == x && (t as *compound).args[1] == y
+//@ spec fun formal3C04(t Term, f Atom, x Term, y Term, z Term) bool = t is *compound && (t as *compound).functor == f && len((t as *compound).args) == 3 && (t as *compound).args[0] == x && (t as *compound).args[1] == y && (t as *compound).args[2] == z
+
+//@ -- NewException: the exception carries a copy of the whole term, made under the bindings in force (so that undoing
+//@ -- bindings while unwinding does not change the ball); the only way the copy fails is the resource error of the copy itself
+//@ func NewException
+//@   property C04 C05
+//@   modifies nothing
+//@   bind c, cerr = renamedCopy#1
+//@   at-call renamedCopy requires[the-ball-is-copied-whole-under-a-renaming-of-its-own-and-the-bindings-given] a0 == term && a1 == nil && a2 == env
+//@   ensures[the-exception-carries-the-copy-of-the-term] cerr == nil ==> result.term == c
+//@   ensures[a-copy-that-could-not-be-made-is-reported-by-the-exception-the-copy-ended-with] cerr != nil ==> result == (cerr as Exception)
+
+//@ -- Exception.Error: only that it can be asked of any exception that carries a term (the text itself is the writer's: C19)
+//@ func Exception.Error
+//@   property C05
+//@   requires[an-exception-carries-a-term] e.term != nil
+
+//@ func Exception.Term
+//@   property C04 C05
+//@   modifies nothing
+//@   ensures[the-term-the-exception-carries] result == e.term
+
+//@ func TypeError
+//@   property C04 C05
+//@   modifies nothing
+//@   bind x = NewException#1
+//@   at-call NewException requires[error-type-error-valid-type-culprit-context] errorTermC04(a0) && formal2C04(formalC04(a0), atomTypeError, typ, culprit)
+//@   at-call NewException requires[copied-under-the-caller-s-bindings] a1 == env
+//@   ensures[the-exception-built-from-that-term] called(x) && result == x
+
+//@ func DomainError
+//@   property C04 C05
+//@   modifies nothing
+//@   bind x = NewException#1
+//@   at-call NewException requires[error-domain-error-valid-domain-culprit-context] errorTermC04(a0) && formal2C04(formalC04(a0), atomDomainError, domain, culprit)
+//@   at-call NewException requires[copied-under-the-caller-s-bindings] a1 == env
+//@   ensures[the-exception-built-from-that-term] called(x) && result == x
+
+//@ func ExistenceError
+//@   property C04 C05
+//@   modifies nothing
+//@   bind x = NewException#1
+//@   at-call NewException requires[error-existence-error-object-type-culprit-context] errorTermC04(a0) && formal2C04(formalC04(a0), atomExistenceError, objectType, culprit)
+//@   at-call NewException requires[copied-under-the-caller-s-bindings] a1 == env
+//@   ensures[the-exception-built-from-that-term] called(x) && result == x
+
+//@ func PermissionError
+//@   property C04 C05
+//@   modifies nothing
+//@   bind x = NewException#1
+//@   at-call NewException requires[error-permission-error-operation-permission-type-culprit-context] errorTermC04(a0) && formal3C04(formalC04(a0), atomPermissionError, operation, permissionType, culprit)
+//@   at-call NewException requires[copied-under-the-caller-s-bindings] a1 == env
+//@   ensures[the-exception-built-from-that-term] called(x) && result == x
+
+//@ func RepresentationError
+//@   property C04 C05
+//@   modifies nothing
+//@   bind x = NewException#1
+//@   at-call NewException requires[error-representation-error-flag-context] errorTermC04(a0) && formal1C04(formalC04(a0), atomRepresentationError, limit)
+//@   at-call NewException requires[copied-under-the-caller-s-bindings] a1 == env
+//@   ensures[the-exception-built-from-that-term] called(x) && result == x
+
+//@ func SyntaxError
+//@   property C04 C05
+//@   modifies nothing
+//@   bind x = NewException#1
+//@   at-call NewException requires[error-syntax-error-message-context] errorTermC04(a0) && formal1C04(formalC04(a0), atomSyntaxError, error)
+//@   at-call NewException requires[copied-under-the-caller-s-bindings] a1 == env
+//@   ensures[the-exception-built-from-that-term] called(x) && result == x
+
+//@ func EvaluationError
+//@   property C04 C05
+//@   modifies nothing
+//@   bind x = NewException#1
+//@   at-call NewException requires[error-evaluation-error-exceptional-value-context] errorTermC04(a0) && formal1C04(formalC04(a0), atomEvaluationError, error)
+//@   at-call NewException requires[copied-under-the-caller-s-bindings] a1 == env
+//@   ensures[the-exception-built-from-that-term] called(x) && result == x
+
+//@ -- ResourceError makes no copy (copying is what ran out of memory): the term itself is pinned, with the context resolved at once
+//@ func ResourceError
+//@   property C04 C05
+//@   modifies nothing
+//@   at-call (*Env).Resolve requires[the-context-is-read-under-the-caller-s-bindings] a0 == env && a1 == varContext
+//@   ensures[error-resource-error-resource-with-the-context-in-force] result.term is *compound && (result.term as *compound).functor == atomError && len((result.term as *compound).args) == 2 &&
+//@       formal1C04((result.term as *compound).args[0], atomResourceError, resource) && (result.term as *compound).args[1] == resolve(env, varContext)
+
+//@ -- the unexported wrappers: the enum's atom (its Term method), then the culprit - nothing reordered, nothing replaced
+//@ -- (error.Error is declared only so that its call can be named: nothing is claimed about it, the heap is given up at the call)
+//@ extern error.Error
+//@   modifies heap
+//@ func syntaxError
+//@   property C04 C05
+//@   requires[an-error-to-report] err != nil
+//@   bind a = NewAtom#1
+//@   bind x = SyntaxError#1
+//@   at-call error.Error requires[the-message-is-asked-of-the-error-given] a0 == err
+//@   at-call SyntaxError requires[the-atom-made-of-the-message-under-the-caller-s-bindings] called(a) && a0 == a && a1 == env
+//@   ensures[the-exception-built-from-it] called(x) && result == x
+
+//@ func evaluationError
+//@   property C04 C05
+//@   modifies nothing
+//@   bind a = exceptionalValue.Term#1
+//@   bind x = EvaluationError#1
+//@   at-call exceptionalValue.Term requires[the-atom-of-the-exceptional-value-given] a0 == ev
+//@   at-call EvaluationError requires[that-atom-under-the-caller-s-bindings] called(a) && a0 == a && a1 == env
+//@   ensures[the-exception-built-from-it] called(x) && result == x
+
+//@ ---------------------------------------------------------------- panics of predicates become errors (C04, C05)
+
+//@ func panicError
+//@   property C04 C05
+//@   at-call fmt.Errorf requires[the-error-shows-one-value-after-the-word-panic] a0 == "panic: %v" && len(a1) == 1
+//@   ensures[a-recovered-panic-is-an-error-never-nothing] result != nil
+
+//@ -- recoverWrapped: set when ensurePromise runs (it only ever runs deferred): "true at a return" means the recover wrapper
+//@ -- was in place on the path that ends in this return
+//@ ghost recoverWrapped bool
+
+//@ func ensurePromise
+//@   property C04 C05
+//@   ghost-set recoverWrapped 1
+//@   requires[the-place-of-the-result] p != nil
+//@   modifies *p
+//@   never-calls dynamic
+//@   never-calls Bool
+//@   ensures[when-nothing-was-recovered-the-result-stands-as-the-function-set-it] *p == old(*p)
+
+//@ -- procedure.call is an interface method (built-in predicates of every arity, user-defined procedures): the declaration
+//@ -- claims nothing about it (no postcondition, the whole heap is given up) - it only lets Arrive's call of it be named
+//@ func procedure.call
+//@   trusted
+//@   modifies heap
+
+//@ -- piTermC04(t, name, n): t is the predicate indicator name/n
+//@ spec fun piTermC04(t Term, name Atom, n int) bool = t is *compound && (t as *compound).functor == atomSlash && len((t as *compound).args) == 2 &&
+//@     (t as *compound).args[0] is Atom && ((t as *compound).args[0] as Atom) == name && (t as *compound).args[1] is Integer && ((t as *compound).args[1] as Integer) == n
+
+//@ -- Arrive: the entry of every predicate call. The recover wrapper is installed on every path; a procedure that does not
+//@ -- exist fails or is an existence error as the flag `unknown` says; one that exists is called with the caller's
+//@ -- arguments and continuation, in the caller's environment extended by the context (its predicate indicator)
+//@ func (*VM).Arrive
+//@   property C04 C05
+//@   recovers nil
+//@   bind ee = existenceError#1
+//@   bind er = Error#1
+//@   bind benv = (*Env).bind#1
+//@   bind r = engine.procedure.call#1
+//@   at-call ensurePromise requires[a-panic-of-the-predicate-is-turned-into-the-promise-returned] a0 == &promise
+//@   at-call existenceError requires[an-unknown-procedure-is-reported-as-existence-error-procedure-name-arity-under-the-caller-s-bindings] a0 == objectTypeProcedure && piTermC04(a1, name, len(args)) && a2 == env
+//@   at-call existenceError requires[only-when-the-procedure-does-not-exist-and-the-flag-unknown-does-not-say-fail-or-warning]
+//@       (forall q procedureIndicator :: q.name == name && q.arity == len(args) ==> !has(vm.procedures, q)) && vm.unknown != unknownFail && vm.unknown != unknownWarning
+//@   at-call dynamic requires[the-host-s-hook-for-unknown-procedures-is-told-name-arguments-and-environment-and-only-under-the-flag-warning] fn == vm.Unknown && a0 == name && a1 == args && a2 == env &&
+//@       vm.unknown == unknownWarning && (forall q procedureIndicator :: q.name == name && q.arity == len(args) ==> !has(vm.procedures, q))
+//@   at-call Error requires[the-error-raised-is-that-existence-error] called(ee) && a0 is Exception && (a0 as Exception) == ee
+//@   at-call (*Env).bind requires[the-context-of-the-call-is-its-predicate-indicator-added-to-the-caller-s-environment] a0 == env && a1 == varContext && piTermC04(a2, name, len(args))
+//@   at-call procedure.call requires[the-procedure-filed-under-name-arity]
+//@       forall q procedureIndicator :: q.name == name && q.arity == len(args) ==> has(vm.procedures, q) && a0 == vm.procedures[q]
+//@   at-call procedure.call requires[with-the-caller-s-arguments-and-continuation-in-the-environment-that-carries-the-context] a1 == vm && a2 == args && a3 == k && called(benv) && a4 == benv
+//@   ensures[the-recover-wrapper-is-in-place-on-every-path-whether-the-procedure-exists-or-not] ghost(recoverWrapped)
+//@   ensures[a-procedure-that-exists-is-called] !called(r) ==> forall q procedureIndicator :: q.name == name && q.arity == len(args) ==> !old(has(vm.procedures, q))
+//@   ensures[and-the-promise-it-returns-is-the-answer] called(r) ==> promise == r
+//@   ensures[an-unknown-procedure-fails-under-the-flags-fail-and-warning] !called(r) && (old(vm.unknown) == unknownFail || old(vm.unknown) == unknownWarning) ==> promise == falsePromise
+//@   ensures[an-unknown-procedure-is-that-existence-error-under-any-other-flag] !called(r) && old(vm.unknown) != unknownFail && old(vm.unknown) != unknownWarning ==> called(er) && promise == er
